@@ -10,7 +10,7 @@ from .models import key, all_outs
 def graphs(draw, max_edges=8, features=None):
     """Layered DAG by construction. `features` switches classes on/off (all on by default)."""
     f = dict(phony=True, restat=True, generator=True, deps=True, hidden_generated=True, multi_out=True,
-             implicit_out=True, validations=True, pools=True, rsp=True, subdirs=True, unordered_hidden=True, dyndep=False)
+             implicit_out=True, validations=True, pools=True, rsp=True, subdirs=True, unordered_hidden=True, dyndep=False, dd_validation=True)
     f.update(features or {})
     nsrc = draw(st.integers(1, 4))
     srcs = ["s%d" % i for i in range(nsrc)]
@@ -92,11 +92,11 @@ def graphs(draw, max_edges=8, features=None):
             edges[i]['vals'] = edges[i]['vals'] + [key(v)]
     g = dict(srcs=srcs, edges=edges, pools=pools)
     if f['dyndep'] is True or (f['dyndep'] == 'some' and draw(st.integers(0, 3)) == 3):
-        add_dyndep(draw, g)
+        add_dyndep(draw, g, f.get('dd_validation', True))
     return g
 
 
-def add_dyndep(draw, g):
+def add_dyndep(draw, g, f_dd_validation=True):
     """binds 1-3 statements to a dyndep file (a source, or produced by a new first statement from a source): the file adds
     implicit inputs (sources / earlier outputs, incl. implicit outputs another bound statement gets from the same
     file), implicit outputs and restat"""
@@ -131,6 +131,18 @@ def add_dyndep(draw, g):
             pe = dict(outs=[dd], iouts=[], phony=False, exp=[src], imp=[], oo=[], vals=[], restat=draw(st.booleans()), generator=False,
                       deps='', hidden=[], variant='v0', pool='', rsp=None, dd=None, depfile_layout=0, is_dd_producer=True)
             producers.append(pe)
+    # a dyndep-added input whose producer requests a validation that nothing else reaches and that is ready at once
+    # (only source inputs): the validation enters the plan in the middle of the build when the file is loaded
+    if f_dd_validation and g['dd_files'] and draw(st.integers(0, 2)) == 2:
+        bound = [e for e in edges if e.get('dd')]
+        e = bound[draw(st.integers(0, len(bound) - 1))]
+        src = g['srcs'][draw(st.integers(0, len(g['srcs']) - 1))]
+        def plain(out, vals):
+            return dict(outs=[out], iouts=[], phony=False, exp=[src], imp=[], oo=[], vals=vals, restat=False, generator=False,
+                        deps='', hidden=[], variant='v0', pool='', rsp=None, dd=None, depfile_layout=0)
+        edges.insert(0, plain('ddv_check', []))
+        edges.insert(0, plain('ddv_hdr', ['ddv_check']))
+        e['dd_ins'] = list(e.get('dd_ins', [])) + ['ddv_hdr']
     for pe in producers:
         edges.insert(0, pe)
     for e in edges:
